@@ -136,6 +136,29 @@ func BuildPool(seed int64, id int) *CallPool {
 		}
 		p.Calls = append(p.Calls, PoolCall{API: "Apply", A: fdoc, B: -1, Patch: pidx, Opts: V5Opts{NegIdx: true, EscapeHTML: true}, Class: "fails-part-way", SharedOpt: -1})
 	}
+	// pointers whose tokens need unescaping, used by several operations and by several patches
+	edoc := addIn(`{"m~1":"old","m/":"other","a~0":{"x":1},"~1":[1,2],"/":{"~":0}}`)
+	for _, et := range []string{
+		`[{"op":"replace","path":"/m~01","value":"new"},{"op":"test","path":"/m~01","value":"new"},{"op":"test","path":"/m~1","value":"other"}]`,
+		`[{"op":"add","path":"/a~00/y","value":2},{"op":"test","path":"/a~00/y","value":2},{"op":"copy","from":"/~01/0","path":"/~1/~0"}]`,
+		`[{"op":"test","path":"/m~01","value":"old"},{"op":"move","from":"/~01/1","path":"/a~00/z"},{"op":"remove","path":"/m~01"}]`,
+	} {
+		pi := addIn(et)
+		p.PatchInputs = append(p.PatchInputs, pi)
+		pidx := len(p.PatchInputs) - 1
+		p.Calls = append(p.Calls, PoolCall{API: "Apply", A: edoc, B: -1, Patch: pidx, Opts: V5Opts{NegIdx: true, EscapeHTML: true}, Class: "escaped-pointers", SharedOpt: -1})
+		p.Calls = append(p.Calls, PoolCall{API: "ApplyWithOptions", A: edoc, B: -1, Patch: pidx, Opts: sharedOptSets[0], Class: "escaped-pointers", SharedOpt: 0})
+	}
+	// merge patches with several deletions on one level, some of them of members the first patch names
+	for _, mp := range [][2]string{
+		{`{"a":1,"c":{"d":1,"f":2}}`, `{"a":null,"b":null,"c":{"d":null,"e":null,"g":null}}`},
+		{`{"a":1}`, `{"a":null,"b":null,"z":null,"y":null}`},
+		{`{"k":{"a":1,"b":2,"c":3}}`, `{"k":{"a":null,"x":null,"b":null,"y":null}}`},
+	} {
+		a, b := addIn(mp[0]), addIn(mp[1])
+		p.Calls = append(p.Calls, PoolCall{API: "MergeMergePatches", A: a, B: b, Patch: -1, Class: "several-deletions", SharedOpt: -1})
+		p.Calls = append(p.Calls, PoolCall{API: "MergePatch", A: a, B: b, Patch: -1, Class: "several-deletions", SharedOpt: -1})
+	}
 	for i := 0; i < 8; i++ {
 		docT := mprof.Any(r)
 		d := addIn(docT)
